@@ -266,6 +266,7 @@ type SpecEnv struct {
 	info  *types.Info
 	ct    *Contract
 	depth int
+	addrs map[string]PtrVal // addresses of address-taken locals
 }
 
 func (env *SpecEnv) child() *SpecEnv {
@@ -419,6 +420,14 @@ func (env *SpecEnv) eval(ex ast.Expr) Value {
 		}
 		return SliceVal{Base: sv.Base, Off: BVAdd(sv.Off, lo), Len: BVSub(hi, lo), Cap: BVSub(sv.Cap, lo), Nil: sv.Nil, ElemT: sv.ElemT}
 	case *ast.UnaryExpr:
+		if x.Op == token.AND {
+			if id, ok := x.X.(*ast.Ident); ok {
+				if p, ok := env.addrs[id.Name]; ok {
+					return p
+				}
+			}
+			env.fail("address-of %s in contract: only address-taken locals are supported", types.ExprString(x.X))
+		}
 		v := env.eval(x.X)
 		switch x.Op {
 		case token.NOT:
@@ -431,8 +440,6 @@ func (env *SpecEnv) eval(ex ast.Expr) Value {
 			return BVNeg(t)
 		case token.XOR:
 			return BVNot(v.(Term))
-		case token.AND:
-			env.fail("address-of in contract")
 		}
 	case *ast.BinaryExpr:
 		return env.binary(x)
@@ -446,7 +453,11 @@ func (env *SpecEnv) eval(ex ast.Expr) Value {
 func (env *SpecEnv) deref(v Value) Value {
 	if p, ok := v.(PtrVal); ok {
 		if p.Obj == nil && p.Lazy == nil {
-			env.fail("dereference of nil pointer in contract")
+			// definitely-nil pointer (guarded by an implication in well-formed contracts): any value
+			if p.Elem == nil {
+				env.fail("dereference of nil pointer in contract")
+			}
+			return env.fx.Fresh(p.Elem, "nilderef")
 		}
 		return env.st.Load(p, nil)
 	}
@@ -720,6 +731,8 @@ func (env *SpecEnv) callExpr(x *ast.CallExpr) Value {
 		return Term{S: "(fp.isInfinite " + env.eval(x.Args[0]).(Term).S + ")", So: SBool}
 	case "math.Abs":
 		return Term{S: "(fp.abs " + env.eval(x.Args[0]).(Term).S + ")", So: SFP}
+	case "sameFloat":
+		return StructEq(env.eval(x.Args[0]).(Term), env.eval(x.Args[1]).(Term))
 	case "truncToInt64":
 		return FPToSBV(64, env.eval(x.Args[0]).(Term))
 	case "truncToUint64":
